@@ -6,6 +6,7 @@
    neighbour tables with the documented contents, which the harness certifies per run. *)
 From Coq Require Import List Arith ZArith.
 From ML Require Import Constraints C07Pairs C07Chunks C07ChunksMore C07Knn.
+From ML Require Import PinsC07.
 Import ListNotations.
 
 Definition C07_statement : Prop :=
@@ -69,3 +70,7 @@ Proof. vm_compute. reflexivity. Qed.
 Example C07_chunks_nonvacuous :
   chunks_model [0; 0; 1; 1; 0]%Z 2 2 [Take 0 [0; 1]; Take 1 [2; 3]] = ChunksOk [(0, 0); (1, 0); (2, 1); (3, 1)].
 Proof. vm_compute. reflexivity. Qed.
+
+(* text-level tie: the functions this property's hand-written model and harness were written from are unchanged
+   (digests regenerated from /repo on every run; Proofs/PinsC07.v) *)
+Definition C07_source_pins := pins_C07_ok.
